@@ -27,7 +27,19 @@ def _persistence():
     return PersistenceCheck()
 
 
+def _pseudotraj():
+    from .walker import PseudotrajCheck
+    return PseudotrajCheck()
+
+
+def _assignment():
+    from .walker import AssignmentCheck
+    return AssignmentCheck()
+
+
 _FACTORIES = {
+    "C10": _pseudotraj,
+    "C11": _assignment,
     "C14": _pipeline,
     "C20": _persistence,
     "C08": _session,
